@@ -396,6 +396,26 @@ int p_codec(void)
 					g_force_api = -1;
 				}
 			}
+			if ((g_pf.mon & MON_C02) && (c.codec == 1 || (c.codec == 2 && c.m == 8)) && c.k >= 2 && !ce->Lforce) {
+				/* MDS means every coefficient of the systematic generator's parity part is non-zero (one lost source must be recoverable
+				 * from any one repair symbol). The generator is read off a block whose sources are byte unit vectors; every zero found
+				 * (and two random positions) is turned into a real history: all sources but i, plus repair j. */
+				cfg_t cu = c; cu.L = c.k; block_t bu; const char *sv = g_prop; g_prop = "";
+				int rcu = block_build(&bu, &cu, PAY_BYTEUNIT, &r, 0, -1); g_prop = sv;
+				if (rcu == 0) {
+					unsigned found = 0;
+					for (uint32_t pass = 0; pass < 2; pass++) for (uint32_t j = 0; j < c.r && found < 6; j++) for (uint32_t i = 0; i < c.k && found < 6; i++) {
+						int zero = bu.sym[c.k + j][i] == 0;
+						if (pass == 0 ? !zero : !(found < 2 && ((i * 131 + j * 31 + ci) % (c.k * c.r / 2 + 1)) == 0)) continue;
+						if (zero) rep_count("zero_coefficients_found_in_a_generator", 1);
+						memset(inset, 1, c.k); memset(inset + c.k, 0, c.r); inset[i] = 0; inset[c.k + j] = 1;
+						run_one(&bu, inset, 0, 0, hash64(uh, 9000 + found), &r, 0);
+						found++;
+					}
+					rep_count("generators_scanned_for_zero_coefficients", 1);
+				}
+				block_free(&bu);
+			}
 			if ((g_pf.mon & MON_C04) && ce->large && c.codec == 3)
 				for (unsigned s = 0; s < (T ? 24u : 6u); s++) run_chain(&b, hash64(uh, 7000 + s), &r);
 			free(inset);
